@@ -178,15 +178,7 @@ func init() {
 				}
 				return SliceV{O: m.newObj(&ArrayV{E: e}, "sqlcols"), Len: len(xs), Cap: len(xs)}
 			}
-			wk := 0
-			if st.whereKey {
-				wk = 1
-			}
-			if st.whereVal {
-				wk = 2
-			}
-			wk += 4 * st.whereNul
-			return TupleV{BVC(64, uint64(st.op)), BVC(64, uint64(st.conflict)), mkInts(st.cols), BVC(64, uint64(wk))}
+			return TupleV{BVC(64, uint64(st.op)), BVC(64, uint64(st.conflict)), mkInts(st.cols), mkInts(st.lits), mkInts(st.conds)}
 		},
 		rtPkg + ".Last": func(m *Machine, _ *Thread, _ *Frame, a []Value, _ ssa.Value) Value {
 			name := m.litArg(a[0], "name")
@@ -438,6 +430,24 @@ func init() {
 			}
 			return TupleV{m.freshBytes(m.fresh("hex.partial", m.bytesSort())), m.opaqueError("hex.InvalidByteError")}
 		},
+		"slices.overlaps": func(m *Machine, _ *Thread, _ *Frame, a []Value, _ ssa.Value) Value {
+			// do the two slices share memory? (the library compares addresses through unsafe)
+			x, ok1 := a[0].(SliceV)
+			y, ok2 := a[1].(SliceV)
+			if !ok1 || !ok2 {
+				panic(m.unsupported("slices.overlaps of %T and %T", a[0], a[1]))
+			}
+			if x.Len == 0 || y.Len == 0 || x.O == nil || x.O != y.O {
+				return False
+			}
+			return BoolC(x.Off <= y.Off+y.Len-1 && y.Off <= x.Off+x.Len-1)
+		},
+		"maps.clone": func(m *Machine, _ *Thread, _ *Frame, a []Value, _ ssa.Value) Value {
+			return m.cloneMap(a[0])
+		},
+		"maps.Clone": func(m *Machine, _ *Thread, _ *Frame, a []Value, _ ssa.Value) Value {
+			return m.cloneMap(a[0])
+		},
 		"strconv.FormatInt": func(m *Machine, _ *Thread, _ *Frame, a []Value, _ ssa.Value) Value {
 			m.needBase10(a[1])
 			return m.formatInt(a[0].(*Term), true, 0)
@@ -527,6 +537,22 @@ func (m *Machine) weakIndex(name string, a []Value) *Term {
 		m.assume(Or(Eq(r, BVC(64, ^uint64(0))), BVCmp("bvult", r, n)))
 	}
 	return r
+}
+
+// cloneMap is maps.Clone: a shallow copy (nil stays nil).
+func (m *Machine) cloneMap(v Value) Value {
+	if iv, ok := v.(IfaceV); ok {
+		v = iv.V
+	}
+	mv, ok := v.(MapV)
+	if !ok {
+		panic(m.unsupported("maps.Clone of %T", v))
+	}
+	if mv.M == nil {
+		return mv
+	}
+	m.objSeq++
+	return MapV{M: &MapObj{Keys: append([]Value{}, mv.M.Keys...), Vals: append([]Value{}, mv.M.Vals...), ID: m.objSeq}}
 }
 
 func (m *Machine) needBase10(v Value) {
@@ -866,15 +892,16 @@ func (m *Machine) formatInt(t *Term, signed bool, width int) *Term {
 	return r
 }
 
-// sqlStmt is the parsed form of one of the statement shapes the database contract model knows:
-// a single table chkpts(logID, chkpt, range) keyed by logID.
+// sqlStmt is the parsed form of a statement over the single table chkpts(logID, chkpt, range):
+// CREATE TABLE IF NOT EXISTS, SELECT cols [WHERE c], INSERT [OR REPLACE|IGNORE] (cols) VALUES
+// (?|NULL, ...), UPDATE SET col = ?|NULL, ... [WHERE c], DELETE [WHERE c], with c a conjunction of
+// "col = ?", "col IS NULL", "col IS NOT NULL".
 type sqlStmt struct {
 	op       int   // 0 unknown, 1 create, 2 select, 3 insert, 4 update, 5 delete
 	conflict int   // insert: 0 plain (error on conflict), 1 OR REPLACE, 2 OR IGNORE
 	cols     []int // select: result columns; insert: target columns; update: SET columns (1 logID, 2 chkpt, 3 range)
-	whereKey bool  // ... WHERE logID = ?
-	whereVal bool  // ... WHERE logID = ? AND chkpt = ?
-	whereNul int   // ... [AND] chkpt IS NOT NULL (1) / chkpt IS NULL (2)
+	lits     []int // insert / update, parallel to cols: 0 = "?" placeholder, 1 = NULL literal
+	conds    []int // WHERE: col*10 + kind (1 "= ?", 2 IS NULL, 3 IS NOT NULL), in source order
 }
 
 func sqlCol(name string) int {
@@ -911,35 +938,39 @@ func parseSQL(q string) sqlStmt {
 		t = t[len(words):]
 		return true
 	}
-	whereVal := false
-	whereNull := 0                 // 1: chkpt IS NOT NULL, 2: chkpt IS NULL
-	where := func() (bool, bool) { // (hasKey, ok): a conjunction of logID = ?, chkpt = ?, chkpt IS [NOT] NULL
+	// where parses an optional WHERE clause up to the end of the statement
+	where := func() ([]int, bool) {
 		if len(t) == 0 {
-			return false, true
+			return nil, true
 		}
 		if !eat("where") {
-			return false, false
+			return nil, false
 		}
-		key := false
+		var conds []int
 		for {
+			if len(t) == 0 {
+				return nil, false
+			}
+			c := sqlCol(t[0])
+			if c == 0 {
+				return nil, false
+			}
+			t = t[1:]
 			switch {
-			case !key && !whereVal && eat("logid", "=", "?"):
-				// (logID = ? must come before chkpt = ?: the model binds arguments in that order)
-				key = true
-			case key && !whereVal && whereNull == 0 && eat("chkpt", "=", "?"):
-				whereVal = true
-			case whereNull == 0 && !whereVal && eat("chkpt", "is", "not", "null"):
-				whereNull = 1
-			case whereNull == 0 && !whereVal && eat("chkpt", "is", "null"):
-				whereNull = 2
+			case eat("=", "?"):
+				conds = append(conds, c*10+1)
+			case eat("is", "not", "null"):
+				conds = append(conds, c*10+3)
+			case eat("is", "null"):
+				conds = append(conds, c*10+2)
 			default:
-				return false, false
+				return nil, false
 			}
 			if len(t) == 0 {
-				return key, true
+				return conds, true
 			}
 			if !eat("and") {
-				return false, false
+				return nil, false
 			}
 		}
 	}
@@ -961,14 +992,11 @@ func parseSQL(q string) sqlStmt {
 		if !eat("from", "chkpts") || len(st.cols) == 0 {
 			return bad
 		}
-		w, ok := where()
+		conds, ok := where()
 		if !ok {
 			return bad
 		}
-		st.whereKey, st.whereNul = w, whereNull
-		if whereVal {
-			return bad
-		}
+		st.conds = conds
 		return st
 	case eat("insert") || eat("replace"):
 		st := sqlStmt{op: 3}
@@ -996,16 +1024,19 @@ func parseSQL(q string) sqlStmt {
 		if !eat(")", "values", "(") {
 			return bad
 		}
-		nq := 0
 		for len(t) > 0 && t[0] != ")" {
-			if t[0] == "?" {
-				nq++
-			} else if t[0] != "," {
+			switch t[0] {
+			case "?":
+				st.lits = append(st.lits, 0)
+			case "null":
+				st.lits = append(st.lits, 1)
+			case ",":
+			default:
 				return bad
 			}
 			t = t[1:]
 		}
-		if !eat(")") || len(t) != 0 || nq != len(st.cols) {
+		if !eat(")") || len(t) != 0 || len(st.lits) != len(st.cols) {
 			return bad
 		}
 		return st
@@ -1016,7 +1047,7 @@ func parseSQL(q string) sqlStmt {
 				t = t[1:]
 				continue
 			}
-			if len(t) < 3 || t[1] != "=" || t[2] != "?" {
+			if len(t) < 3 || t[1] != "=" || (t[2] != "?" && t[2] != "null") {
 				return bad
 			}
 			c := sqlCol(t[0])
@@ -1024,20 +1055,25 @@ func parseSQL(q string) sqlStmt {
 				return bad
 			}
 			st.cols = append(st.cols, c)
+			if t[2] == "null" {
+				st.lits = append(st.lits, 1)
+			} else {
+				st.lits = append(st.lits, 0)
+			}
 			t = t[3:]
 		}
-		w, ok := where()
+		conds, ok := where()
 		if !ok || len(st.cols) == 0 {
 			return bad
 		}
-		st.whereKey, st.whereVal, st.whereNul = w, whereVal, whereNull
+		st.conds = conds
 		return st
 	case eat("delete", "from", "chkpts"):
-		w, ok := where()
+		conds, ok := where()
 		if !ok {
 			return bad
 		}
-		return sqlStmt{op: 5, whereKey: w, whereVal: whereVal, whereNul: whereNull}
+		return sqlStmt{op: 5, conds: conds}
 	}
 	return bad
 }
